@@ -280,7 +280,8 @@ fn exec(c: &CloseCase, env: &Env) -> Outcome {
         if cy.drop_delay_us > 0 {
             std::thread::sleep(Duration::from_micros(cy.drop_delay_us as u64));
         }
-        let names_at_drop: Vec<String> = dir_fingerprint(&dir).keys().cloned().collect();
+        let fp_at_drop = dir_fingerprint(&dir);
+        let names_at_drop: Vec<String> = fp_at_drop.keys().cloned().collect();
         drop(store);
         // (1) every operation through any remaining handle fails with 'closed'
         if let Err(f) = post_ops(&handles, &keys, &cy.post, ci as u64) {
@@ -336,6 +337,22 @@ fn exec(c: &CloseCase, env: &Env) -> Outcome {
         // (3) no further change on disk by handle operations (checked once the worker is gone)
         if !at_once {
             let before = dir_fingerprint(&dir);
+            // without timer-driven merges nothing at all may have changed since the drop, the
+            // first round of post-drop operations included
+            if !c.policy_always && before != fp_at_drop {
+                let new: Vec<&String> = before.keys().filter(|k| !fp_at_drop.contains_key(*k)).collect();
+                fail = Some((
+                    "post-drop-op-changed-disk".into(),
+                    format!(
+                        "cycle {}: operations through handles of a dropped store changed the directory ({} -> {} files; new: {:?})",
+                        ci,
+                        fp_at_drop.len(),
+                        before.len(),
+                        new
+                    ),
+                ));
+                break;
+            }
             let merge_in_flight = before.keys().cloned().collect::<Vec<_>>() != names_at_drop;
             if merge_in_flight {
                 out.label("merge-was-in-flight-at-drop");
